@@ -409,6 +409,12 @@ class Interp:
                     if target is None:
                         raise NotPure("call to unknown function " + up(f))
                 return self.call(target, args, depth + 1)
+            fv = self.ev(f, env, depth)
+            args = [self.ev(a, env, depth) for a in n["args"]]
+            if callable(fv):
+                return fv(*args)
+            if isinstance(fv, tuple) and len(fv) == 3 and fv[0] == "closure":
+                return self.apply_closure(fv, args, depth)
             raise NotPure("indirect call")
         if k == "mcall":
             m = n["method"]
